@@ -209,7 +209,8 @@ MUTANTS = [
                 let mut buffer = Vec::with_capacity(buffer_length);
 
                 // The first intermediate value is MD5(Attribute type + secret + RV)""", """                static SCRATCH: std::sync::Mutex<Vec<u8>> = std::sync::Mutex::new(Vec::new());
-                let mut buffer = SCRATCH.lock().unwrap_or_else(|e| e.into_inner());
+                let mut scratch = SCRATCH.lock().unwrap_or_else(|e| e.into_inner());
+                let buffer: &mut Vec<u8> = &mut scratch;
                 if !secret.is_empty() {
                     buffer.clear();
                 }
